@@ -281,9 +281,13 @@ Inductive ns_entry :=
 
 Inductive af_step := AfNamespace | AfType | AfProperty | AfNoneNotImplemented | AfCall.
 Inductive au_action := AuElemwise | AuReduce.
+(* operand bookkeeping of the "outer" branch: the loop walks reversed(inputs)?  the transformed list is reversed
+   back?  cum_ndim is incremented after the append? *)
+Record outer_facts := mkOuter { o_loop_reversed : bool; o_reversed_back : bool; o_cum_after_append : bool }.
 Record au_table := mkAu {
   au_out_guard : bool; au_gufunc_to_function : bool; au_outer_rewrite : option string;
-  au_branches : list (string * au_action); au_default_notimplemented : bool }.
+  au_branches : list (string * au_action); au_default_notimplemented : bool;
+  au_outer_order : option outer_facts }.
 
 Inductive np_kind :=
 | NpUfunc (name : string) (gufunc : bool)
@@ -554,3 +558,32 @@ Definition body_order_ok (reflected : bool) (a : option attr) : bool :=
 Definition operand_order_ok (T : dtables) (cls : string) : bool :=
   forallb (fun st => body_order_ok false (attr_lookup T cls (dunder st SideL))
                      && body_order_ok true (attr_lookup T cls (dunder st SideR))) binary_stems.
+
+(* ---------------- operand order of ufunc.outer (NEP-13 method "outer")
+   An input is (its identity, its ndim); the branch hands to elemwise a list of (identity, number of trailing
+   None axes appended by  inp[(Ellipsis,) + (None,) * cum_ndim] ). *)
+Section Outer.
+  Variable A : Type.
+
+  Fixpoint outer_walk (cum_after : bool) (l : list (A * Z)) (cum : Z) : list (A * Z) :=
+    match l with
+    | [] => []
+    | (a, nd) :: r => (a, if cum_after then cum else cum + nd) :: outer_walk cum_after r (cum + nd)
+    end.
+
+  (* what the extracted branch does *)
+  Definition outer_inputs (o : outer_facts) (l : list (A * Z)) : list (A * Z) :=
+    let l1 := if o_loop_reversed o then rev l else l in
+    let t := outer_walk (o_cum_after_append o) l1 0 in
+    if o_reversed_back o then rev t else t.
+
+  Fixpoint zsum (l : list Z) : Z := match l with [] => 0 | x :: r => x + zsum r end.
+
+  (* NumPy's ufunc.outer: operands in CALL order, each followed by as many new axes as the operands to its
+     right have axes in total  (A.outer(a, b)[i.., j..] = op(a[i..], b[j..])) *)
+  Fixpoint np_outer_spec (l : list (A * Z)) : list (A * Z) :=
+    match l with
+    | [] => []
+    | (a, nd) :: r => (a, zsum (map snd r)) :: np_outer_spec r
+    end.
+End Outer.
